@@ -22,6 +22,7 @@ import uuid
 
 from . import common as C
 from . import c18
+from . import gramgen
 from .setup import build_envshim
 
 PROP = "C20"
@@ -95,7 +96,19 @@ NEUTRAL_ENV = {"shim_seed": 0, "clock_base": 1700000000, "clock_step": 1000, "ju
                "read_short": 0, "read_eintr": 0, "stderr": "pipe"}
 
 
+def text_of(texts, name):
+    """Grammar text by name; `gen:<seed>` names a grammar drawn from that seed (vlib/gramgen.py)."""
+    if name.startswith("gen:"):
+        return gramgen.grammar(int(name[4:]))
+    return texts[name]
+
+
 def make_step(rng, goods, bads, texts, root_index):
+    if rng.chance(1, 3):
+        # a grammar program drawn from the seed (inline source: nothing to compile, so programs can be sampled)
+        name = "gen:%d" % (rng.next() % 1_000_000)
+        return {"name": name, "source": "inline", "path": "", "text": text_of(texts, name), "options": list(rng.pick(OPTION_SETS)),
+                "include_grammar": False, "thread": rng.pick([0, 0, 1, 2, 3, 9])}
     bad = rng.chance(1, 7)
     name = rng.pick(bads) if bad else rng.pick(goods)
     source = "file" if rng.chance(2, 3) else "inline"
@@ -137,7 +150,7 @@ def gen_run(seed, goods, bads, texts):
             if rng.chance(1, 2):
                 # ... the same grammar under another option set / source kind
                 st["options"] = list(rng.pick(OPTION_SETS))
-                if rng.chance(1, 3):
+                if rng.chance(1, 3) and not st["name"].startswith("gen:"):
                     st["source"] = "inline" if st["source"] == "file" else "file"
                     st["text"] = texts[st["name"]] if st["source"] == "inline" else ""
                     st["include_grammar"] = False
@@ -205,7 +218,7 @@ class GenRefs:
 
     def step_for(self, key):
         k = json.loads(key)
-        return {"name": k["name"], "source": k["source"], "path": "grammars/%s.pest" % k["name"], "text": self.texts[k["name"]] if k["source"] == "inline" else "",
+        return {"name": k["name"], "source": k["source"], "path": "grammars/%s.pest" % k["name"], "text": text_of(self.texts, k["name"]) if k["source"] == "inline" else "",
                 "options": k["options"], "include_grammar": k["include_grammar"], "thread": 0}
 
     def compute(self, key, dump_dir=None):
@@ -355,7 +368,8 @@ def run(tier, seed):
     counters_total = {}
     env_kinds = {"hash_seed_varied": 0, "clock_varied": 0, "junk_environment": 0, "manifest_root_relocated": 0, "cwd_changed": 0,
                  "read_short_configured": 0, "read_eintr_configured": 0, "stderr_is_full_disk": 0, "stderr_is_devnull": 0, "heap_ballast": 0, "non_main_thread_steps": 0, "fresh_thread_steps": 0,
-                 "panicking_expansions": 0, "steps_after_a_panicking_expansion": 0, "repeated_expansions_in_one_process": 0}
+                 "panicking_expansions": 0, "steps_after_a_panicking_expansion": 0, "repeated_expansions_in_one_process": 0,
+                 "generated_grammar_expansions": 0, "generated_grammar_expansions_accepted": 0}
     distinct = set()
     steps_total = 0
     samples = []
@@ -401,6 +415,9 @@ def run(tier, seed):
                 env_kinds["non_main_thread_steps"] += st["thread"] != 0
                 env_kinds["fresh_thread_steps"] += st["thread"] == 9
                 env_kinds["panicking_expansions"] += digest.startswith("PANIC")
+                if st["name"].startswith("gen:"):
+                    env_kinds["generated_grammar_expansions"] += 1
+                    env_kinds["generated_grammar_expansions_accepted"] += not digest.startswith("PANIC")
                 env_kinds["steps_after_a_panicking_expansion"] += panicked
                 env_kinds["repeated_expansions_in_one_process"] += key in seen_in_run
                 seen_in_run.add(key)
@@ -527,7 +544,7 @@ def run(tier, seed):
         "evaluations": evaluations + n_var_runs * len(bins),
         "distinct_nontrivial": len(distinct),
         "rule": ("clause 1: one evaluation = one simulated run = a fresh generator process (ASLR off, envshim preloaded) executing a seeded history of 1-7 expansions "
-                 "(grammar from a 10-grammar corpus or one of 5 ill-formed grammars, one of %d option sets, file or inline source, include_grammar, calling thread) under a seeded "
+                 "(grammar from an 11-grammar corpus, one of 5 ill-formed grammars, or a grammar program drawn from the seed by vlib/gramgen.py, one of %d option sets, file or inline source, include_grammar, calling thread) under a seeded "
                  "environment vector (hash seed, clock, environment size, manifest root, cwd, short reads / EINTR on the grammar file, heap ballast); every expansion is compared "
                  "with the same expansion alone in a fresh neutral process. distinct_nontrivial = distinct (expansion key, environment class, history prefix, thread) tuples. "
                  "clause 2: the same seeded operation histories are executed in every option variant of the parsesim runner and compared on verdict, offset and thin pair tree."
@@ -584,7 +601,7 @@ def replay(path):
         refs = GenRefs(binary, shim, roots, texts)
         run = doc["run"]
         for st in run["scenario"]["steps"]:
-            st["text"] = texts[st["name"]] if st["source"] == "inline" else ""
+            st["text"] = text_of(texts, st["name"]) if st["source"] == "inline" else ""
         pool = concurrent.futures.ThreadPoolExecutor(max_workers=4)
         found = failures_of(binary, shim, roots, refs, run, pool)
         hit = [f for f in found if f[0] == doc["class"] and f[1] == doc["subject"]]
